@@ -2,29 +2,40 @@ package main
 
 import (
 	"fmt"
+	"os"
+	"strings"
 	"testing"
-	"time"
 
 	"wvh/hlib"
 )
 
-func TestGenSpeed(t *testing.T) {
+// go test -tags verif -run TestOne ./cmd/c01   with C01_FILE=path
+func TestOne(t *testing.T) {
+	path := os.Getenv("C01_FILE")
+	if path == "" {
+		t.Skip()
+	}
+	b, _ := os.ReadFile(path)
+	var hs, body []string
+	for _, ln := range strings.Split(string(b), "\n") {
+		if strings.HasPrefix(ln, "// history:") {
+			hs = append(hs, strings.TrimSpace(strings.TrimPrefix(ln, "// history:")))
+		} else if !strings.HasPrefix(ln, "// expect:") && !strings.HasPrefix(ln, "origin:") {
+			body = append(body, ln)
+		}
+	}
 	fr := NewFront()
-	for i := 0; i < 5; i++ {
-		g := &Gen{rng: hlib.NewRand(uint64(i + 1)), fr: fr, stats: map[string]int{}}
-		t0 := time.Now()
-		p := g.NewProgram()
-		src, _ := p.Render(-1)
-		n := 0
-		for k, v := range g.stats {
-			if len(k) > 5 && k[:5] == "cand:" {
-				n += v
-			}
+	g := &Gen{rng: hlib.NewRand(1), fr: fr, stats: map[string]int{}}
+	res := runProgram(fr, g, 0, "file", strings.Join(body, "\n"), hs, len(hs))
+	fmt.Println("accepted:", res.Accepted, res.RejClass, res.RealErr, res.Notes)
+	for hi := range res.Hists {
+		fmt.Println(historyString(res.Hists[hi]), "->", res.Expected[hi], res.Dropped[hi])
+		if res.IFail[hi] != nil {
+			fmt.Println("   FAIL", res.IFail[hi].Key, res.IFail[hi].Desc)
 		}
-		fmt.Printf("prog %d: %v, %d checks, %d lines\n", i, time.Since(t0), n, len(src))
-		if i == 0 {
-			fmt.Println(src)
-			fmt.Println(g.stats)
-		}
+	}
+	fmt.Println(res.Stats)
+	for _, o := range res.Ops {
+		fmt.Println(o.op, " => ", o.impl)
 	}
 }
